@@ -21,7 +21,7 @@ def try_patch(patch: str, props: list[str]) -> dict:
     root = tempfile.mkdtemp(prefix="verif-try-")
     try:
         _copy_pkg(root)
-        r = subprocess.run(["git", "apply", "--exclude=cubed/tests/*", "-p1", os.path.abspath(patch)], cwd=root, capture_output=True, text=True)
+        r = subprocess.run(["git", "apply", "--exclude=cubed/tests/*", "--include=cubed/*", "-p1", os.path.abspath(patch)], cwd=root, capture_output=True, text=True)
         if r.returncode != 0:
             return {"status": "patch-failed", "detail": r.stderr[-400:]}
         repo = Repo(root=root)
